@@ -304,12 +304,14 @@ func (c *Container) dispatch(httpWriter http.ResponseWriter, httpRequest *http.R
 }
 
 // fixedPrefixPath returns the fixed part of the partspec ; it may include template vars {}
+// The fixed part ends with the last slash in front of the first variable: a literal prefix
+// of that variable (e.g. /img{id}) is not a path segment of its own.
 func fixedPrefixPath(pathspec string) string {
 	varBegin := strings.Index(pathspec, "{")
 	if -1 == varBegin {
 		return pathspec
 	}
-	return pathspec[:varBegin]
+	return pathspec[:strings.LastIndex(pathspec[:varBegin], "/")+1]
 }
 
 // ServeHTTP implements net/http.Handler therefore a Container can be a Handler in a http.Server
